@@ -634,6 +634,20 @@ class Interp:
                 for i, v in enumerate(lay['variants']):
                     if int(v['discr'], 16) & ((1 << (8 * lay['size'])) - 1) == d:
                         return Enum(t['name'], i, v['name'])
+            if lay is None and t['name'].startswith('core::ops::Range') and t.get('args'):
+                # core's range types over an integer (constants such as `const BITS: Range<usize> = 13..15`): start, end[, exhausted]
+                ew = ty_width(t['args'][0])
+                if ew:
+                    eb = ew // 8
+                    short = t['name'].split('::')[-1]
+                    sgn = ty_signed(t['args'][0])
+                    get = lambda i: BV.const(ew, int.from_bytes(bs[i * eb:(i + 1) * eb], 'little'), sgn)
+                    if short in ('Range',) and len(bs) >= 2 * eb:
+                        return Struct(t['name'], [get(0), get(1)])
+                    if short == 'RangeInclusive' and len(bs) >= 2 * eb:
+                        return Struct(t['name'], [get(0), get(1), BV.const(1, bs[2 * eb] & 1 if len(bs) > 2 * eb else 0)])
+                    if short in ('RangeFrom', 'RangeTo', 'RangeToInclusive') and len(bs) >= eb:
+                        return Struct(t['name'], [get(0)])
             if lay is None and 0 < len(bs) <= 16:
                 # a foreign newtype around one scalar (e.g. core's Atomic<u64>)
                 return Struct(t['name'], [BV.const(8 * len(bs), int.from_bytes(bs, 'little'))])
